@@ -63,7 +63,9 @@ func Lint(stream io.Reader, lc LintConfig) error {
 	err := parser.ParseStreamCallback(stream, lc.ParserConfig, func(node *shared.ParserNode, err error) (stop bool, cbError error) {
 		if err != nil {
 			errorsFound++
-			fmt.Fprintln(lc.ReporterConfig.Output, err)
+			if _, writeErr := fmt.Fprintln(lc.ReporterConfig.Output, err); writeErr != nil {
+				return true, writeErr
+			}
 		}
 		return false, nil
 	})
@@ -74,7 +76,7 @@ func Lint(stream io.Reader, lc LintConfig) error {
 		return fmt.Errorf("%d errors found", errorsFound)
 	}
 	if !lc.Silent {
-		fmt.Fprintln(lc.ReporterConfig.Output, "No errors found")
+		_, err = fmt.Fprintln(lc.ReporterConfig.Output, "No errors found")
 	}
-	return nil
+	return err
 }
